@@ -389,12 +389,36 @@ def main():
     ap.add_argument("prop")
     ap.add_argument("--tier", default=os.environ.get("VERIF_TIER", "quick"), choices=["quick", "thorough"])
     ap.add_argument("--only", default="")
+    ap.add_argument("--replay", default="", help="re-run one recorded counterexample (evidence/replay/*.json) natively")
     ap.add_argument("--jobs", type=int, default=int(os.environ.get("VERIF_JOBS", "16")))
     a = ap.parse_args()
     seed = int(os.environ.get("VERIF_SEED", "0") or 0)
     only = [x for x in a.only.split(",") if x]
     try:
-        if a.prop == "C19":
+        if a.replay:
+            import tv_check
+            rc = tv_check.replay_file(a.prop, a.replay)
+            if rc is None:
+                # Kani properties: the file records the native replay command of the harness
+                d = json.load(open(a.replay))
+                cmd = d.get("replay_cmd")
+                if not cmd:
+                    log("replay: no replay_cmd in", a.replay)
+                    rc = 2
+                else:
+                    import re as _re
+                    mm = _re.search(r"/([^/ ]+)-native/(release|debug)/replay", cmd)
+                    if mm:
+                        build_replay(mm.group(1), mm.group(2) == "release")
+                    p = subprocess.run(cmd, shell=True, capture_output=True, text=True)
+                    log(p.stdout[-400:], p.stderr[-400:])
+                    if p.returncode != 0:
+                        print(f"VIOLATION property={a.prop} replay={a.replay}")
+                        rc = 1
+                    else:
+                        print(f"OK property={a.prop} replay does not reproduce on the current tree")
+                        rc = 0
+        elif a.prop == "C19":
             import tv_check
             rc = tv_check.run_c19(a.tier, seed, write_evidence, only)
         elif a.prop == "C03":
